@@ -320,8 +320,8 @@ def visGate (st : St) (vecs : List (Nat × List Rat)) (sc e : Nat) (ds : List De
   let o := rows.all (fun (_, _, ne, ni, band, gateOk, _, _) => ni == 0 || (gateOk && (band || ni ≤ ne))) &&
     tbl.all (fun (f, tid, _, dd) => dd.isNone || rows.any (fun r => r.1 == f && r.2.1 == tid))
   (k, o,
-   (if k && o then [] else ["gate-rows:" ++ ";".intercalate (rows.map (fun (i, t, ne, ni, band, g, ew, iw) =>
-      s!"d{i}/t{t}/exp{ne}/impl{ni}/band{band}/gate{g}/{ew.map showRat}/{iw.map showRat}"))]) ++
+   (if k && o then [] else [String.ofList (("gate-rows:" ++ ";".intercalate (rows.map (fun (i, t, ne, ni, band, g, ew, iw) =>
+      s!"d{i}/t{t}/exp{ne}/impl{ni}/band{band}/gate{g}/{ew.map showRat}/{iw.map showRat}"))).toList.filter (fun c => c != ' ' && c != ','))]) ++
    flag (rows.any (fun r => r.2.2.1 > 0)) "appearance-votes" ++
    flag (rows.any (fun r => r.2.2.2.2.1)) "visual-threshold-guard-band" ++
    flag ((ds.zip useOk).any (fun (d, u) => d.feat != 0 && !u)) "feature-not-usable" ++
